@@ -46,20 +46,29 @@ def suite():
     failed = [l for l in re.findall(r"^test (.*) \.\.\. FAILED$", o, re.M) if "test_url_parser" not in l]
     return passed, failed
 res = {"seed": sid, "worktree": W, "patch": patch, "properties": props}
+STAGE = os.environ.get("SEED_STAGE", "all")   # confirm | check | all
+saved = f"{out}/confirm{k}.json"
+if STAGE == "check" and os.path.exists(saved):
+    res = json.load(open(saved)); res["properties"] = props
+    ok = res.get("confirmed")
+    print(f"[{sid}] (confirmed earlier: {ok})")
 sh("git checkout -q -- .", cwd=W)
-rc0, o0 = run_demo()
-res["demo_without_change"] = {"exit": rc0, "tail": o0[-400:] if o0 else o0}
-rc, o = sh(f"git apply {patch}", cwd=W)
-if rc != 0:
-    print("PATCH DOES NOT APPLY in scratch", o); sys.exit(1)
-p, f = suite()
-res["suite_with_change"] = {"passed": p, "unexpected_failures": f}
-rc1, o1 = run_demo()
-res["demo_with_change"] = {"exit": rc1, "tail": o1[-400:] if o1 else o1}
-sh("git checkout -q -- .", cwd=W)
-ok = (p >= 99 and not f and rc0 == 0 and rc1 not in (0, None))
-res["confirmed"] = ok
-print(f"[{sid}] suite passed={p} unexpected={f} demo without={rc0} with={rc1} confirmed={ok}")
+if not (STAGE == "check" and os.path.exists(saved)):
+  rc0, o0 = run_demo()
+  res["demo_without_change"] = {"exit": rc0, "tail": o0[-400:] if o0 else o0}
+  rc, o = sh(f"git apply {patch}", cwd=W)
+  if rc != 0:
+      print("PATCH DOES NOT APPLY in scratch", o); sys.exit(1)
+  p, f = suite()
+  res["suite_with_change"] = {"passed": p, "unexpected_failures": f}
+  rc1, o1 = run_demo()
+  res["demo_with_change"] = {"exit": rc1, "tail": o1[-400:] if o1 else o1}
+  sh("git checkout -q -- .", cwd=W)
+  ok = (p >= 99 and not f and rc0 == 0 and rc1 not in (0, None))
+  res["confirmed"] = ok
+  print(f"[{sid}] suite passed={p} unexpected={f} demo without={rc0} with={rc1} confirmed={ok}")
+if STAGE == "confirm":
+    json.dump(res, open(saved, "w"), indent=1); sys.exit(0 if res.get("confirmed") else 1)
 # apply to /repo, run checks, undo
 rc, o = sh(f"git -C /repo apply {patch}")
 if rc != 0:
